@@ -4,6 +4,7 @@ import re
 
 EXEC = "mq"
 MODEL_AFTER_IMPL = True
+PER_SHARD = 4
 IMPL_SHARDS = 8           # timing windows: do not oversubscribe the machine
 
 
